@@ -54,6 +54,23 @@ def sc_kmeans_perm(B, perm):
     return o
 
 
+def sc_kmeans_twice(B):
+    """training twice with the same configuration objects (same init array, same data array)
+    gives the same model: nothing of the first training leaks into the second"""
+    km = B.mod("kmeans")
+    K, D, N = 2, 1, 3
+    X = B.arr("x", (N, D))
+    C0 = B.arr("c", (K, D))
+    init, data = B.copy(C0), B.copy(X)
+    m1 = km.KMeansMachine(K, init_method=init, max_iter=1, convergence_threshold=None).fit(data)
+    first = B.copy(m1.centroids_)
+    m2 = km.KMeansMachine(K, init_method=init, max_iter=1, convergence_threshold=None).fit(data)
+    o = Outcome()
+    o.same("second-training-equals-first", m2.centroids_, first)
+    o.same("refit-of-the-same-estimator", km.KMeansMachine.fit(m1, data).centroids_, first)
+    return o
+
+
 def sc_wccn_perm(B, perm, relabel):
     wc = B.mod("wccn")
     labels = [0, 1, 0, 1]
@@ -188,6 +205,10 @@ def job_perm(P):
         P.run("kmeans-" + tag, sc_kmeans_perm, dict(perm=perm), validate=1 if tag == "120" else 0)
 
 
+def job_twice(P):
+    P.run("kmeans-twice", sc_kmeans_twice, {}, validate=1)
+
+
 def job_wccn(P):
     for perm in ((0, 1, 2, 3), (3, 2, 1, 0), (1, 0, 3, 2), (2, 0, 3, 1)):
         for relabel in ({0: 0, 1: 1}, {0: 1, 1: 0}, {0: 7, 1: -2}):
@@ -216,7 +237,7 @@ def job_seed(P):
 
 
 def jobs(tier):
-    out = [("perm", "job_perm", {}), ("wccn", "job_wccn", {}), ("seed", "job_seed", {})]
+    out = [("perm", "job_perm", {}), ("wccn", "job_wccn", {}), ("seed", "job_seed", {}), ("twice", "job_twice", {})]
     for kind in ("isv", "jfa"):
         for K in ((2,) if tier == "quick" else (2, 3)):
             for perm in itertools.permutations(range(3)):
